@@ -393,8 +393,14 @@ class FunctionReference:
             else self._module + ":" + self._function_name
         )
         # (a version may contain "::" itself: look for the cluster prefix before appending it)
-        if cluster_name is not None and "::" not in qualified_name:
-            qualified_name = cluster_name + "::" + qualified_name
+        if cluster_name is not None:
+            own_cluster = memento_fn.cluster_name
+            if own_cluster is not None and qualified_name.startswith(own_cluster + "::"):
+                # The cluster given for this reference counts, like for its other attributes,
+                # also when the function itself belongs to another named cluster (by now)
+                qualified_name = qualified_name[len(own_cluster) + 2 :]
+            if "::" not in qualified_name:
+                qualified_name = cluster_name + "::" + qualified_name
         if version is not None:
             qualified_name += "#" + version
         self._qualified_name = qualified_name
